@@ -81,6 +81,8 @@ CLSr  == [kind |-> "closed"]
 EmptyFn == [x \in {} |-> 0]
 
 Alive == crashed = "none"
+\* a reply is inside Channel.Send and deliver holds the server's lock around it (see SendBegin / SendEnd)
+InSend == \E b \in 1..Len(bat) : bat[b].busy
 Srcs  == DOMAIN task
 
 RECURSIVE SeqToSet(_)
@@ -167,7 +169,7 @@ StopEffect(cause) ==
 NoStopEffect == UNCHANGED <<ch, err, inq, work, task, semq, sem, used, cbw, rdbuf, rdpc, dpc>>
 
 Stop ==
-  /\ Alive /\ "stop" \in Faults /\ ~wsret
+  /\ Alive /\ ~InSend /\ "stop" \in Faults /\ ~wsret
   /\ IF ch = "open" THEN StopEffect("stopped") ELSE NoStopEffect
   /\ UNCHANGED <<basedone, nin, peerClosed, dbatch, nbar, bat, calls, callID, cb, npush, sendOK, wsret, gen, ncancel, crashed, out>>
 
@@ -223,7 +225,7 @@ Matches(x)  == IsReply(x) /\ x.id \in DOMAIN calls
 Dropped(x)  == IsReply(x) /\ ~Matches(x) /\ AllowPush /\ Fixed.F9
 
 RdProcess ==
-  /\ Alive /\ rdpc = "proc" /\ rdbuf.kind \in {"garbage", "empty", "msg"}
+  /\ Alive /\ ~InSend /\ rdpc = "proc" /\ rdbuf.kind \in {"garbage", "empty", "msg"}
   /\ IF ch = "nil" /\ Fixed.F23
      THEN \* repaired: the reader finds the server stopped and exits
           /\ rdpc' = "done" /\ rdbuf' = None
@@ -261,7 +263,7 @@ RdProcess ==
                  sendOK, wsret, gen, ncancel>>
 
 RdFail ==   \* Recv reported an error: stopLocked(err) and exit
-  /\ Alive /\ rdpc = "proc" /\ rdbuf.kind \in {"eof", "err", "closed"}
+  /\ Alive /\ ~InSend /\ rdpc = "proc" /\ rdbuf.kind \in {"eof", "err", "closed"}
   /\ IF ch = "open"
      THEN /\ StopEffect(rdbuf.kind)
           /\ rdbuf' = None /\ rdpc' = "done"     \* overrides the reader part of StopEffect
@@ -291,7 +293,7 @@ Assign(mem) ==
 \* both overwritten with errDuplicateID), hence the order of the tests above.
 
 DpLock ==   \* nextRequest: take the lock, look at the queue
-  /\ Alive /\ dpc = "lock"
+  /\ Alive /\ ~InSend /\ dpc = "lock"
   /\ IF inq = <<>>
      THEN /\ IF ch = "nil" THEN dpc' = "done"
              ELSE IF work = "token" THEN dpc' = "lock" /\ TRUE ELSE dpc' = "sleep"
@@ -307,7 +309,7 @@ DpLock ==   \* nextRequest: take the lock, look at the queue
                             IF id \in DOMAIN used THEN used[id]
                             ELSE b.mem[CHOOSE i \in 1..Len(T) : T[i].rsv /\ T[i].id = id].src]
               /\ dbatch' = [mem |-> [i \in 1..Len(b.mem) |-> b.mem[i].src], arr |-> b.arr,
-                            live |-> (ch = "open"), sent |-> FALSE]
+                            live |-> (ch = "open"), sent |-> FALSE, busy |-> FALSE]
               /\ dpc' = "barrier"
               /\ work' = work
   /\ UNCHANGED <<basedone, nin, peerClosed, rdbuf, rdpc, nbar, bat, sem, semq, calls, callID, cb, cbw, npush,
@@ -319,7 +321,7 @@ Reportable(t) == t.id # 0 \/ t.res = "inv"
 \* waitForBarrier + spawn of the batch goroutine.  A batch whose members all
 \* failed statically goes straight to deliver (gate) or finishes (nothing to report).
 DpBarrier ==
-  /\ Alive /\ dpc = "barrier" /\ nbar = 0
+  /\ Alive /\ ~InSend /\ dpc = "barrier" /\ nbar = 0
   /\ nbar' = TodoNotes(dbatch)
   /\ bat' = Append(bat, dbatch)
   /\ dbatch' = None /\ dpc' = "lock"
@@ -367,7 +369,7 @@ Executed(t)    == IF Fixed.F1 THEN t.rsv ELSE t.res \notin {"dup", "inv", "nf", 
 ReplyItem(t) == [id |-> t.id, res |-> t.res]
 
 Deliver(b) ==
-  /\ Alive /\ b \in 1..Len(bat) /\ ~bat[b].sent /\ AllFinished(b)
+  /\ Alive /\ ~InSend /\ b \in 1..Len(bat) /\ ~bat[b].sent /\ ~bat[b].busy /\ AllFinished(b)
   /\ LET B    == bat[b]
          rep  == Reps(b)
          rel  == {task[B.mem[i]].id : i \in {j \in rep : Executed(task[B.mem[j]]) /\ task[B.mem[j]].id \in DOMAIN used}}
@@ -394,10 +396,45 @@ Deliver(b) ==
 DeliverS(s) == \E b \in 1..Len(bat) : bat[b].mem[1] = s /\ Deliver(b)
 
 (***************************************************************************)
+(* The same delivery in two steps ("holdsend" \in Faults): the reply is    *)
+(* inside Channel.Send for a while, and deliver holds the server's lock    *)
+(* around it.  Whatever takes that lock (the reader's critical section,    *)
+(* the dispatcher, other deliveries, Stop, CancelRequest, pushes, callback *)
+(* timeouts, WaitStatus, Start) waits; what does not (a handler returning  *)
+(* and giving up its slot, a waiter taking it, the peer, contexts ending)  *)
+(* goes on.  The harness holds the goroutine inside Send (holdop/unhold).  *)
+(***************************************************************************)
+SendBegin(b) ==
+  /\ Alive /\ "holdsend" \in Faults /\ ~InSend
+  /\ b \in 1..Len(bat) /\ ~bat[b].sent /\ AllFinished(b)
+  /\ Reps(b) # {} /\ bat[b].live /\ sendOK
+  /\ LET B    == bat[b]
+         rep  == Reps(b)
+         rel  == {task[B.mem[i]].id : i \in {j \in rep : Executed(task[B.mem[j]]) /\ task[B.mem[j]].id \in DOMAIN used}}
+         tk1  == [x \in DOMAIN task |-> IF \E id \in rel : used[id] = x THEN [task[x] EXCEPT !.cx = TRUE] ELSE task[x]]
+         st   == Settle(tk1, semq, sem)
+     IN  /\ used' = [id \in DOMAIN used \ rel |-> used[id]]
+         /\ task' = st[1] /\ semq' = st[2] /\ sem' = st[3]
+         /\ bat' = [bat EXCEPT ![b].busy = TRUE]
+  /\ UNCHANGED <<basedone, nin, peerClosed, rdbuf, rdpc, inq, work, dpc, dbatch, nbar, calls, callID, cb, cbw, npush,
+                 ch, err, sendOK, wsret, gen, ncancel, crashed, out>>
+SendEnd(b) ==
+  /\ b \in 1..Len(bat) /\ bat[b].busy
+  /\ LET B == bat[b]  rep == Reps(b) IN
+     /\ bat' = [bat EXCEPT ![b].busy = FALSE, ![b].sent = TRUE]
+     /\ out' = Emit([t |-> "reply", arr |-> B.arr,
+                     items |-> [k \in 1..Cardinality(rep) |->
+                        ReplyItem(task[B.mem[CHOOSE i \in rep : Cardinality({j \in rep : j < i}) = k - 1]])]])
+  /\ UNCHANGED <<basedone, nin, peerClosed, rdbuf, rdpc, inq, work, dpc, dbatch, nbar, task, sem, semq, used, calls, callID,
+                 cb, cbw, npush, ch, err, sendOK, wsret, gen, ncancel, crashed>>
+SendBeginS(s) == \E b \in 1..Len(bat) : bat[b].mem[1] = s /\ SendBegin(b)
+SendEndS(s)   == \E b \in 1..Len(bat) : bat[b].mem[1] = s /\ SendEnd(b)
+
+(***************************************************************************)
 (* CancelRequest.                                                          *)
 (***************************************************************************)
 CancelRequest(id) ==
-  /\ Alive /\ ncancel < MaxCancel /\ ~wsret
+  /\ Alive /\ ~InSend /\ ncancel < MaxCancel /\ ~wsret
   /\ ncancel' = ncancel + 1
   /\ IF id \in DOMAIN used
      THEN LET tk1 == IF used[id] \in DOMAIN task THEN [task EXCEPT ![used[id]].cx = TRUE] ELSE task
@@ -431,14 +468,14 @@ BaseCtxEnd ==
 Callers == {"cbA", "cbB"}
 
 PushNotify ==
-  /\ Alive /\ npush < MaxPush /\ ~wsret
+  /\ Alive /\ ~InSend /\ npush < MaxPush /\ ~wsret
   /\ npush' = npush + 1
   /\ out' = IF AllowPush /\ ch = "open" THEN Emit([t |-> "pushnote"]) ELSE out
   /\ UNCHANGED <<basedone, nin, peerClosed, rdbuf, rdpc, inq, work, dpc, dbatch, nbar, task, bat, sem, semq, used,
                  calls, callID, cb, cbw, ch, err, sendOK, wsret, gen, ncancel, crashed>>
 
 PushCall(c) ==
-  /\ Alive /\ npush < MaxPush /\ ~wsret /\ c \in Callers /\ c \notin DOMAIN cb
+  /\ Alive /\ ~InSend /\ npush < MaxPush /\ ~wsret /\ c \in Callers /\ c \notin DOMAIN cb
   /\ npush' = npush + 1
   /\ IF ~AllowPush
      THEN /\ cb' = [x \in DOMAIN cb \cup {c} |-> IF x = c THEN [id |-> 0, st |-> "done", res |-> "unsupported"] ELSE cb[x]]
@@ -467,7 +504,7 @@ CbCtxEnd(c) ==   \* the context given to Callback ends (cancel or deadline)
                  calls, callID, cb, npush, ch, err, sendOK, wsret, gen, ncancel, crashed, out>>
 
 CbTimeout(id) ==  \* waitCallback after <-pctx.Done(): release gate srv.waitcb.lock
-  /\ Alive /\ id \in DOMAIN cbw /\ cbw[id] = "gate"
+  /\ Alive /\ ~InSend /\ id \in DOMAIN cbw /\ cbw[id] = "gate"
   /\ cbw' = [cbw EXCEPT ![id] = "gone"]
   /\ IF id \in DOMAIN calls
      THEN /\ calls' = [x \in DOMAIN calls \ {id} |-> calls[x]]
@@ -485,13 +522,13 @@ WgZero == /\ rdpc = "done" /\ dpc = "done"
           /\ dbatch = None
 
 WaitStatusReturn ==
-  /\ Alive /\ ~wsret /\ WgZero
+  /\ Alive /\ ~InSend /\ ~wsret /\ WgZero
   /\ wsret' = TRUE
   /\ UNCHANGED <<basedone, nin, peerClosed, rdbuf, rdpc, inq, work, dpc, dbatch, nbar, task, bat, sem, semq, used,
                  calls, callID, cb, cbw, npush, ch, err, sendOK, gen, ncancel, crashed, out>>
 
 Restart ==    \* Start(freshChannel) after WaitStatus returned
-  /\ Alive /\ "restart" \in Faults /\ wsret /\ gen < 2
+  /\ Alive /\ ~InSend /\ "restart" \in Faults /\ wsret /\ gen < 2
   /\ gen' = gen + 1 /\ wsret' = FALSE
   /\ peerClosed' = FALSE /\ rdbuf' = None /\ rdpc' = "recv"
   /\ work' = "empty" /\ dpc' = "lock" /\ ch' = "open" /\ err' = "none" /\ sendOK' = TRUE
@@ -516,6 +553,8 @@ Next ==
   \/ \E s \in SrcSpace : WkAcquire(s)
   \/ \E s \in SrcSpace : \E o \in Outcomes : HReturn(s, o)
   \/ \E s \in SrcSpace : DeliverS(s)
+  \/ \E s \in SrcSpace : SendBeginS(s)
+  \/ \E s \in SrcSpace : SendEndS(s)
   \/ Stop
   \/ \E id \in Ids : CancelRequest(id)
   \/ BaseCtxEnd
@@ -532,7 +571,7 @@ Spec == Init /\ [][Next]_vars
 \* eventually taken (handlers return once released; the harness always releases).
 Internal == RdProcess \/ RdFail \/ DpLock \/ DpBarrier \/ (\E s \in Srcs : WkAcquire(s))
             \/ (\E s \in Srcs : \E o \in Outcomes : HReturn(s, o)) \/ (\E s \in Srcs : DeliverS(s))
-            \/ (\E id \in DOMAIN cbw : CbTimeout(id)) \/ WaitStatusReturn
+            \/ (\E id \in DOMAIN cbw : CbTimeout(id)) \/ WaitStatusReturn \/ (\E s \in Srcs : SendEndS(s))
 FairSpec == Spec /\ WF_vars(Internal)
 
 (***************************************************************************)
@@ -558,7 +597,7 @@ C03_HeldBatchIdle ==
   dbatch # None => \A i \in 1..Len(dbatch.mem) : task[dbatch.mem[i]].st \in {"fail", "todo"}
 
 \* C07: reservations are exactly the reserved members whose reply has not been sent
-InFlightRsv == {s \in Srcs : task[s].rsv /\ ((Spawned(s) /\ ~bat[BatchOf(s)].sent) \/ ~Spawned(s))}
+InFlightRsv == {s \in Srcs : task[s].rsv /\ ((Spawned(s) /\ ~bat[BatchOf(s)].sent /\ ~bat[BatchOf(s)].busy) \/ ~Spawned(s))}
 C07_Reservations ==
   ch = "open" => /\ \A id \in DOMAIN used : used[id] \in InFlightRsv /\ task[used[id]].id = id
                  /\ \A s \in InFlightRsv : task[s].id \in DOMAIN used /\ used[task[s].id] = s
@@ -567,7 +606,7 @@ C07_CancelOnlyTarget ==
   [][\A s \in Srcs : (s \in DOMAIN task' /\ ~task[s].cx /\ task'[s].cx) =>
         \/ ch' = "nil"                                                  \* stop path
         \/ (ncancel' = ncancel + 1 /\ task[s].id \in DOMAIN used /\ used[task[s].id] = s)
-        \/ (Spawned(s) /\ bat'[BatchOf(s)].sent /\ ~bat[BatchOf(s)].sent)  \* its own delivery
+        \/ (Spawned(s) /\ (bat'[BatchOf(s)].sent \/ bat'[BatchOf(s)].busy) /\ ~bat[BatchOf(s)].sent /\ ~bat[BatchOf(s)].busy)  \* its own delivery
         \/ (basedone' /\ ~basedone)                                      \* its base context ended
      ]_vars
 
